@@ -94,10 +94,14 @@ def overlay_kani(sc, spec):
         shutil.copy("/repo/Cargo.lock", os.path.join(sc.sr, "Cargo.lock"))  # git worktrees of /repo do not carry the untracked lock file
     for fn in ("Cargo.toml", "Cargo.lock"):
         shutil.copy(os.path.join(sc.sr, fn), os.path.join(sc.dir, fn + ".pristine"))
+    ahash_line = ""
+    if spec.get("ahash_fixed_new"):
+        ahash_line = 'ahash = {{ path = "{}" }}\n'.format(patched_ahash(sc))
     with open(os.path.join(sc.sr, "Cargo.toml"), "a") as f:
         f.write(PATCH_SECTION.format(v=VERIF))
         for extra in spec.get("extra_patches", []):
             f.write(extra.format(v=VERIF) + "\n")
+        f.write(ahash_line)
         f.write('\n[lints.rust]\nunexpected_cfgs = "allow"\nunused = "allow"\n')
     hdir = os.path.join(sc.sr, "src", "verif_harness")
     os.makedirs(hdir, exist_ok=True)
@@ -136,6 +140,33 @@ def overlay_kani(sc, spec):
     shutil.copy(os.path.join(VERIF, "harness", "kani", "coll_models.rs" if uses_models else "coll_std.rs"), os.path.join(hdir, "coll.rs"))
     with open(os.path.join(hdir, "mod.rs"), "a") as f:
         f.write("pub mod coll;\n")
+
+
+def patched_ahash(sc):
+    """A copy of the REAL ahash crate (from the cargo registry cache) in which only
+    `RandomState::new()` is replaced by fixed keys.  The original goes through a lazily initialised
+    `Box<dyn RandomSource>` (OnceBox + virtual call + OS entropy); under Kani that path made verdicts
+    depend on the absolute path of the dependency crates (spurious free()/pointer failures when
+    /verif was checked out elsewhere).  The keys only seed the iteration order of hash tables -
+    which are modelled - never stateright's own fingerprints (those use `with_seeds`)."""
+    import glob
+    lock = open(os.path.join(sc.sr, "Cargo.lock")).read()
+    m = re.search(r'name = "ahash"\nversion = "([^"]+)"', lock)
+    if not m:
+        raise Inconclusive("ahash not found in Cargo.lock")
+    cands = glob.glob(os.path.expanduser(f"~/.cargo/registry/src/*/ahash-{m.group(1)}"))
+    if not cands:
+        raise Inconclusive(f"ahash-{m.group(1)} sources not in the cargo registry cache")
+    dst = os.path.join(sc.dir, "ahash-patched")
+    shutil.copytree(cands[0], dst)
+    rs = os.path.join(dst, "src", "random_state.rs")
+    txt = open(rs).read()
+    txt2, n = re.subn(r"pub fn new\(\) -> RandomState \{\n\s*let src = get_src\(\);\n\s*let fixed = get_fixed_seeds\(\);\n\s*Self::from_keys\(&fixed\[0\], &fixed\[1\], src\.gen_hasher_seed\(\)\)\n\s*\}",
+                      "pub fn new() -> RandomState {\n        RandomState::with_seeds(0x243f_6a88_85a3_08d3, 0x1319_8a2e_0370_7344, 0xa409_3822_299f_31d0, 0x082e_fa98_ec4e_6c89)\n    }", txt)
+    if n != 1:
+        raise Inconclusive("could not patch ahash::RandomState::new (source layout changed)")
+    open(rs, "w").write(txt2)
+    return dst
 
 
 def apply_transform(sc, tr):
